@@ -35,9 +35,10 @@ LEVEL_TEXT = ("Props/C01.v composes the component theorems for instance input: a
               "C02 (bookkeeping), C06/C07 (metric definitions), C08 (zero-TP) and C05 (instances of semantic input) this is the documented "
               "procedure. Every kernel on the path is re-translated from the AST each run; evaluate() is compared with the model on enumerated "
               "and random inputs for all input types, matching metrics, thresholds, decision metrics and backends.")
-LEVEL_NOTE = ("Layer reached in Coq: L2 (instance input, IoU/Dice/RVD, crops as identity) with the semantic/CCA and ASSD layers connected through "
-              "C05/C07's own theorems and by correspondence; the single end-to-end refinement statement over semantic input with geometry is "
-              "not assembled into one Coq theorem (stated as partial). Trusted: Coq kernel, translator, extraction+driver, harness.")
+LEVEL_NOTE = ("Coq: C01_end_to_end is a single end-to-end theorem for unmatched instance input, threshold matcher, IoU/Dice lists, decision metric "
+              "(layer L2, crops as identity, proved harmless by GenEq_Crop + C07_crop_invariant); semantic input (C05: instances = connected "
+              "components), ASSD values (C07), RVD, merge matcher (C14) are connected through their own theorems and by correspondence, not "
+              "assembled into that one statement (partial). Trusted: Coq kernel, translator, extraction+driver, harness.")
 TECHNIQUE = "machine-checked proof in Rocq (Coq) (composition of component theorems) + AST re-translation + end-to-end model/implementation correspondence"
 
 
